@@ -65,6 +65,13 @@ PROPS = {
         gen_obligations=["Gen.allCmdIndex","Gen.capErrorReports","Gen.muxServeRLockDeferred"],
         trusted=["Model.Mux hand-written from server.go ServeMux; command resolution through the C17 dictionary model"],
     ),
+    "C17": dict(
+        domains=[("dict", "types", 1, 1), ("dict", "default", 6000, 60000), ("dict", "generated", 3000, 60000), ("dict", "mono", 2000, 40000)],
+        relevant=["C17:"],
+        theorems=["DV.Props.C17."+t for t in ["C17_resolution_code","C17_resolution_name","C17_command","C17_placeholder","C17_monotone","C17_chain","C17_types","C17_consts","C17_default_loads","C17_gen"]],
+        gen_obligations=["Gen.dictFiles","Gen.availableIds","Gen.decoderKeys","Gen.marshalCases","Gen.parentAppIds","Gen.avpCodeJoin","Gen.cmdCodeJoin","Gen.appCodeJoin","Gen.UndefinedVendorID"],
+        trusted=["Model.Dict hand-written from dict/parser.go and dict/util.go; the extractor's own XML reading of dict/default.go and its name interning"],
+    ),
     "C16": dict(
         domains=[("codec", "answer", 6000, 100000)],
         relevant=["C16:"],
